@@ -616,6 +616,32 @@ def _r17_8(prog: Program, res: Result) -> None:
 
 
 # ------------------------------------------------------------------------------------------------ R17.5
+def _evaluates(prog: Program, fn: Func, e: ast.AST, at: ast.AST, side: str) -> bool:
+    """e is a local whose nearest preceding definition (in the loop around `at`) is the evaluated LEFT operand
+    (literal_value(<cmp>.left)) resp. the evaluated comparator (literal_value(<cmp>.comparators[0]), possibly through a
+    local bound to that comparator) of the comparison being folded."""
+    if not isinstance(e, ast.Name):
+        return False
+    loop = parent(at)
+    while loop is not None and not isinstance(loop, ast.For):
+        loop = parent(loop)
+    scope = loop if loop is not None else fn.node
+    defs = [a for a in ast.walk(scope) if isinstance(a, ast.Assign) and len(a.targets) == 1 and isinstance(a.targets[0], ast.Name)
+            and a.targets[0].id == e.id and a.lineno < at.lineno]
+    if not defs:
+        return False
+    d = max(defs, key=lambda a: a.lineno).value
+    if not (isinstance(d, ast.Call) and norm(d.func).endswith("literal_value") and d.args):
+        return False
+    arg = d.args[0]
+    if isinstance(arg, ast.Name):     # comparator = node.comparators[0]
+        inner = [a for a in ast.walk(scope) if isinstance(a, ast.Assign) and isinstance(a.targets[0], ast.Name) and a.targets[0].id == arg.id and a.lineno < at.lineno]
+        if inner:
+            arg = max(inner, key=lambda a: a.lineno).value
+    t = norm(arg)
+    return t.endswith(".left") if side == "left" else t.endswith(".comparators[0]")
+
+
 def _r17_5(prog: Program, res: Result) -> None:
     fn = prog.func("symbolic_math", "simplify_boolean_expressions")
     n = 0
@@ -632,7 +658,7 @@ def _r17_5(prog: Program, res: Result) -> None:
                         if isinstance(v, ast.Compare) and len(v.ops) == 1:
                             n += 1
                             got = PYOP.get(type(v.ops[0]))
-                            order_ok = norm(v.left) == "left" and norm(v.comparators[0]) == "right"
+                            order_ok = _evaluates(prog, fn, v.left, s, "left") and _evaluates(prog, fn, v.comparators[0], s, "comparators")
                             res.decide(got == cls and order_ok, "R17.5", fn.loc(s), fn.fq, f"{cls}: {norm(v)}",
                                        "folds with the operator it tested for" if got == cls and order_ok else
                                        f"branch for ast.{cls} folds with {got} / operands {norm(v.left)}, {norm(v.comparators[0])}")
@@ -650,7 +676,7 @@ def _r17_6(prog: Program, res: Result) -> None:
     realises every order type with gaps 0, 1, 2 (a small-model argument for difference constraints with
     constants 0 and 1).  Step is taken as 1 here; the step-phase clause is a separate obligation below.
     """
-    fn = prog.func("symbolic_math", "simplify_constrained_range")
+    fn = _canonical_roles(prog.func("symbolic_math", "simplify_constrained_range"))
     # template variable -> operator (from the first element: x OP c)
     tmpl_op: Dict[str, str] = {}
     for n in walk_own(fn.node):
@@ -778,6 +804,38 @@ def _r17_6(prog: Program, res: Result) -> None:
 
 class _Unsupported(Exception):
     pass
+
+
+def _canonical_roles(fn: Func) -> Func:
+    """A copy of the function in which the locals that play the roles the interpreter knows are called by their role:
+    the three values unpacked from the range arguments -> start, stop, step; the set that collects the conditions
+    folded into the bounds (`X.add(<condition>)` inside the update branches) -> redundant.  Roles are found by
+    structure, so the analysis does not depend on what the repository calls them."""
+    import copy
+    mapping: Dict[str, str] = {}
+    for n in walk_own(fn.node):
+        if isinstance(n, ast.Assign) and isinstance(n.targets[0], ast.Tuple) and len(n.targets[0].elts) == 3 \
+                and all(isinstance(t, ast.Name) for t in n.targets[0].elts) and ("_constant_int" in norm(n.value) or "args" in norm(n.value)):
+            for t, role in zip(n.targets[0].elts, ("start", "stop", "step")):
+                mapping[t.id] = role
+    for n in walk_own(fn.node):
+        if isinstance(n, ast.If) and "match_template" in norm(n.test):
+            for c in ast.walk(n):
+                if isinstance(c, ast.Call) and isinstance(c.func, ast.Attribute) and c.func.attr == "add" and isinstance(c.func.value, ast.Name) \
+                        and c.args and isinstance(c.args[0], ast.Name):
+                    mapping.setdefault(c.func.value.id, "redundant")
+    mapping = {k: v for k, v in mapping.items() if k != v}
+    if not mapping:
+        return fn
+    node = copy.deepcopy(fn.node)
+    for x in ast.walk(node):
+        if isinstance(x, ast.Name) and x.id in mapping:
+            x.id = mapping[x.id]
+    from ..model import set_parents
+    set_parents(node)
+    clone = copy.copy(fn)
+    clone.node = node
+    return clone
 
 
 def _run_branch(stmts, state, c, cvar) -> None:
